@@ -1,69 +1,115 @@
-CHECK = {
-    "lean_module": "MidnightZK.Props.C01",
-    "harness": "h-c01",
-    "translators": [],
-    "level": "proof",
-    "technique": "Lean 4 proofs over executable models of the prover/verifier control flow: Fiat-Shamir schedule agreement for every "
-                 "constraint-system shape and proving configuration; order of the y-combination (prover loop nest = verifier iterator chain); "
-                 "expression-graph compiler correctness; quotient split/blind/recombine; row-level completeness of the permutation, lookup "
-                 "(incl. a full specification of permute_expression_pair for every HashMap iteration order) and trash arguments as the prover "
-                 "constructs them. Models tied to the code by recording real transcripts, the compiled graphs, the verifier's identity log "
-                 "and the hooked Lagrange vectors of the prover's arguments on generated circuits",
-    "rule": "circuit-family members (random gate kinds/degrees/rotations, lookups, copy constraints, phases, "
-            "unblinded columns, trash arguments) x 1..4 proofs x 0..2 committed + 0..2 plain instance columns x k "
-            "x {blake2b, poseidon}; one case = one real prove+verify; request lines carry the dumped constraint-system "
-            "shape (schedule/prooflen/graph/idcount) or, for the argument vectors (blake2b runs, k <= 7 quick / 8 thorough, first two "
-            "proofs), the REAL table of the proof with its blinding rows, the sigma labels of the proving key and the challenges read off "
-            "the transcript (argtable), followed by permz / lookupcomp / lookupperm / lookupz / trashvec (model recomputes the prover's "
-            "vectors) and permrules / lookuprules / trashrules (the verifier's identities read row by row on the logged vectors and on "
-            "vectors with one altered entry); lookupperm-failure = witnesses with a lookup input outside the table; distinct = distinct "
-            "request lines; all are non-trivial (real proofs)",
-    "explanation": "Theorems: schedule_agree (verifier replays the prover's transcript operations for every shape/configuration); "
-                   "identity_order_agree / horner_sections (the prover's accumulation value*y+identity over custom gates [Horner from the "
-                   "previous value], permutation, lookups, trash, proof after proof, equals the verifier's fold over its expression chain, "
-                   "for every shape); compile_correct; quotient_blind_recombine / chunks_recombine; perm_product_complete (for every number "
-                   "of permutation columns, chunk length, n, blinding values: if the (value, sigma-label) multiset over the usable cells "
-                   "equals the (value, identity-label) multiset - derived from a bijection of the cells by sigma_invariant_pairs_perm - and no "
-                   "denominator vanishes, every permutation identity vanishes on every row), with perm_rule_rows (first/chain/product rules "
-                   "hold by construction for any values) and perm_last_value / perm_last_complete; lookup_permuted_spec / _fail / _no_panic "
-                   "(permute_expression_pair returns the sorted input and a permutation of the table with A'0=S'0 and A'i=S'i or A'i=A'i-1 "
-                   "for EVERY iteration order of the leftover HashMap, ConstraintSystemFailure iff some input is missing, never a panic); "
-                   "lookup_product_complete (all five lookup identities vanish on every row); trash_complete. "
-                   "Tie: the executable schedules are compared event by event with transcripts recorded from the real prover and verifier; "
-                   "the number of identities with the verifier's hooked identity log; the Lean models permProducts / compressExpressions / "
-                   "permuteExpressionPair / lookupProduct / trashValues are run on the real table and must reproduce the vectors logged "
-                   "inside the real prover (non-random rows; for the permuted table the rows the specification forces and its multiset); the "
-                   "verifier-side row rules (Lean and an independent Rust re-implementation) are evaluated on the logged vectors. Oracles: "
-                   "every honest proof verifies; prover and verifier absorb identical bytes; the logged vectors satisfy every identity on "
-                   "every row; the honest table satisfies the multiset hypothesis of perm_product_complete.",
-    "trusted_base": [
-        "commitments, pairing check and the hash inside the transcript are abstract in the model (events carry only kind/type/tag)",
-        "the argument theorems are row-level: a polynomial in Lagrange form is identified with its value vector on the domain, "
-        "l_0/l_last/l_blind with the indicator of row 0 / row u / rows > u, rotation with a cyclic row shift (the passage to the quotient "
-        "h = numerator/(X^n-1) is the algebra of C02/C12/C14, not re-proved here)",
-        "verif-hooks in midnight-proofs (thread-local observers: identity log, argument-vector log), ProvingKey::verif_derived_parts "
-        "(fixed values, sigma labels), ProvingKey::verif_custom_gates_graph",
-        "parallelize/rayon chunking inside the prover's loops is modelled by the sequential loop (chunk independence is C12/C17)",
-    ],
-    "assumptions": [
-        "witness satisfies the circuit (by construction of the family); KZG completeness is C14",
-        "challenges outside the exceptional set: no denominator beta*sigma+gamma+v resp. (beta+A')(gamma+S') vanishes on a usable row "
-        "(explicit hypotheses hden of perm_product_complete / lookup_product_complete; counted on every real case: never observed)",
-        "Ord of the field is a linear order whose equal elements are identical (hypothesis LinOrd of the lookup theorems)",
-    ],
-    "level_text": "Kernel-checked theorems (29 obligations): prover and verifier transcript schedules agree for all shapes/configurations "
-                  "(the place where the pinned tree rejected honest proofs); the prover's order of combining identities with y equals the "
-                  "verifier's for all shapes; the expression-graph compiler is correct; quotient split/blind/recombine; the permutation, "
-                  "lookup and trash arguments the honest prover constructs satisfy every verifier identity on every row (for all layouts, "
-                  "all n, all blinding values, every HashMap order, outside an explicitly stated exceptional set of challenges). Models "
-                  "validated against recorded transcripts, compiled graphs, the identity log and the argument vectors logged inside the "
-                  "real prover; honest-proof acceptance and rule satisfaction observed on every generated case",
-    "level_note": "Trusted: Lean kernel, harness, driver, hooks. Abstract: group/pairing/hash. Not mechanised: the assembly "
-                  "honest_verifies_algebraic (from 'every identity vanishes on every row' to 'the quotient exists and the verifier's "
-                  "evaluation check at x passes' - divisibility by X^n-1, coset evaluation, the l_i formulas), the custom-gate identities "
-                  "on blinding rows (gates are satisfied on all rows by the floor planner's zero selectors - observed by the acceptance "
-                  "oracle only), and the probability bound for the exceptional challenge set. The argument models take sigma labels and "
-                  "cell values as inputs: that keygen produces sigma labels which are a permutation of the identity labels is checked on "
-                  "every real case (multiset hypothesis), not proved (C17/C02)",
-    "timeout": {"quick": 1200, "thorough": 7200, "search": 1800},
-}
+CHECK = {'lean_module': 'MidnightZK.Props.C01',
+ 'harness': 'h-c01',
+ 'translators': [],
+ 'level': 'proof',
+ 'technique': 'Lean 4 proofs over executable models of the prover/verifier control flow: Fiat-Shamir schedule agreement for '
+              'every constraint-system shape and proving configuration; order of the y-combination (prover loop nest = verifier '
+              'iterator chain); expression-graph compiler correctness; quotient split/blind/recombine; row-level completeness of '
+              'the permutation, lookup (incl. a full specification of permute_expression_pair for every HashMap iteration order) '
+              "and trash arguments as the prover constructs them; and the ASSEMBLY over Mathlib's Polynomial for an arbitrary "
+              'field with a primitive n-th root of unity: X^n-1 = prod (X-w^i), divisibility of the y-combination of identities '
+              "that vanish on the domain, existence/degree of the quotient, the prover's pieces recombine to h(x), the "
+              "verifier's expected_h_eval equals h(x) off the domain, l_i_range is the barycentric formula, l_0/l_last/l_blind "
+              "and the verifier's own instance evaluations are evaluations of the interpolating polynomials. Models tied to the "
+              "code by recording real transcripts, the compiled graphs, the verifier's identity log (values, y, xn, "
+              'expected_h_eval), the hooked instance evaluations, EvaluationDomain::l_i_range and the hooked Lagrange vectors of '
+              "the prover's arguments on generated circuits",
+ 'rule': 'circuit-family members (random gate kinds/degrees/rotations, lookups, copy constraints, phases, unblinded columns, '
+         'trash arguments) and C01-owned stress shapes (gate degree 3..9 = 2..8 quotient pieces, unblinded column queried at '
+         '-1/0/+1, third-phase column never queried, lookup_any into an advice column and into an instance column, 3 and 4 '
+         'proofs with 2 committed instance columns, k from the minimum the shape supports) x 1..4 proofs x 0..2 committed + 0..2 '
+         'plain instance columns x k x {blake2b, poseidon}; one case = one real prove+verify; request lines carry the dumped '
+         "constraint-system shape (schedule/prooflen/graph/idcount), the verifier's identity values with y and x^n (hfold -> "
+         "expected_h_eval), domain + x + rotation lists (lirange: the verifier's two windows, random rotations beyond +-n, "
+         'multiples of n; levals), each plain instance column with its query rotation (insteval -> the value the real verifier '
+         'computed) or, for the argument vectors (blake2b runs, k <= 7 quick / 8 thorough, first two proofs), the REAL table of '
+         'the proof with its blinding rows, the sigma labels of the proving key and the challenges read off the transcript '
+         "(argtable), followed by permz / lookupcomp / lookupperm / lookupz / trashvec (model recomputes the prover's vectors) "
+         "and permrules / lookuprules / trashrules (the verifier's identities read row by row on the logged vectors and on "
+         'vectors with one altered entry); lookupperm-failure = witnesses with a lookup input outside the table; distinct = '
+         'distinct request lines; all are non-trivial (real proofs)',
+ 'explanation': "Theorems: schedule_agree (verifier replays the prover's transcript operations for every shape/configuration); "
+                'identity_order_agree / horner_sections; compile_correct; quotient_blind_recombine / chunks_recombine; '
+                'perm_product_complete (with perm_rule_rows, perm_last_value / perm_last_complete, sigma_invariant_pairs_perm); '
+                'lookup_permuted_spec / _fail / _no_panic; lookup_product_complete; trash_complete. NEW assembly: '
+                'vanishing_poly_factors, vanish_on_domain_iff_dvd, ycomb_divisible (every y), quotient_identity_everywhere '
+                '(h(x)(x^n-1) = fold of the identity values, every x), honest_verifies_algebraic (for every field with a '
+                'primitive n-th root, every q >= 1, every list of identity polynomials that vanish on every row and have degree '
+                '< n+(n-1)q, every y, every blinding vector of blind_quotient_limbs and every x with x^n != 1: the quotient '
+                'exists, truncate((n-1)q) loses nothing, the chopped commitment Sum x^((n-1)i) h_i opens to exactly the '
+                'expected_h_eval the verifier computes - the model hCheck accepts); lagrange_range_spec, lagrange_interpolation, '
+                'l_evals_spec (l_0, l_last, l_blind = evaluations of the indicator interpolants [i=0], [i=u], [u<i] - the '
+                'convention of the row-level theorems), instance_eval_spec (compute_inner_product over the l_i_range window with '
+                'offset max_rotation - rotation = column polynomial at w^rot x); lookup_identities_vanish_on_domain / '
+                'trash_identity_vanishes_on_domain (row-level completeness lifted to the identity POLYNOMIALS built from '
+                'Lagrange-form vectors and rotations); selector_gate_blinding_rows (selector*G vanishes on the whole domain with '
+                'NO assumption on G on the blinding rows) and unselected_gate_not_divisible (a gate without such a factor has no '
+                'quotient). Tie: the executable schedules are compared event by event with transcripts recorded from the real '
+                'prover and verifier; the number of identities AND the fold itself (expectedHEval on the hooked values, y, xn '
+                'must reproduce the hooked expected_h_eval); lIRange must reproduce EvaluationDomain::l_i_range value by value; '
+                "instanceEval must reproduce every plain-column entry of the verifier's instance_evals (new add-only hook); "
+                'lEvals must equal eval_polynomial(lagrange_to_coeff(indicator)) computed by the real domain code; the Lean '
+                'models permProducts / compressExpressions / permuteExpressionPair / lookupProduct / trashValues are run on the '
+                'real table and must reproduce the vectors logged inside the real prover; the verifier-side row rules (Lean and '
+                'an independent Rust re-implementation) are evaluated on the logged vectors. Oracles: every honest proof '
+                'verifies; prover and verifier absorb identical bytes; the logged vectors satisfy every identity on every row; '
+                "EVERY custom-gate polynomial vanishes on EVERY row of the real table (blinding rows with the prover's random "
+                'values included) and every fixed column is zero on the unusable rows (hypotheses of '
+                "selector_gate_blinding_rows, counted); the verifier's instance evaluation equals the column polynomial at w^rot "
+                'x; the honest table satisfies the multiset hypothesis of perm_product_complete; gates without a factor '
+                'vanishing on the unusable rows: the mock checker reports ConstraintPoisoned and the real verifier rejects '
+                '(recorded, counters noselector-gate:*), with a fixed-column factor mock and verifier accept; whenever the mock '
+                'checker accepts, the honest proof must be accepted. The correspondence is deliberately value-level for '
+                'l_i_range / expected_h_eval / instance evaluations (a re-association or a rewrite through omega instead of '
+                'omega_inv does not fire; a changed index, window or dropped term does).',
+ 'trusted_base': ['commitments, pairing check and the hash inside the transcript are abstract in the model (events carry only '
+                  'kind/type/tag); honest_verifies_algebraic reads a commitment as the polynomial it commits to (opening '
+                  'completeness is C14)',
+                  'the argument theorems are row-level: a polynomial in Lagrange form is identified with its value vector on the '
+                  'domain, l_0/l_last/l_blind with the indicator of row 0 / row u / rows > u, rotation with a cyclic row shift; '
+                  'the lift to polynomials (colPoly / rotPoly / indPoly evaluated at w^i = row value) is proved for the lookup, '
+                  "trash and selector-gated identities, and used as the hypothesis 'vanishes on every row' of "
+                  'honest_verifies_algebraic for the permutation identities and general gates',
+                  'verif-hooks in midnight-proofs (thread-local observers: identity log, argument-vector log, '
+                  'instance-evaluation log), ProvingKey::verif_derived_parts (fixed values, sigma labels), '
+                  'ProvingKey::verif_custom_gates_graph',
+                  "parallelize/rayon chunking inside the prover's loops is modelled by the sequential loop (chunk independence "
+                  'is C12/C17); divide_by_vanishing_poly / extended_to_coeff (coset FFT) are specified as polynomial division by '
+                  'X^n-1 (FFT correctness is C12)'],
+ 'assumptions': ['witness satisfies the circuit (by construction of the family; for the stress shapes also checked with the mock '
+                 'checker); KZG completeness is C14',
+                 "challenges outside the exceptional set: no denominator beta*sigma+gamma+v resp. (beta+A')(gamma+S') vanishes "
+                 'on a usable row (explicit hypotheses hden of perm_product_complete / lookup_product_complete; counted on every '
+                 'real case: never observed), and x outside the domain (x^n != 1: the verifier would panic on invert().unwrap(); '
+                 'probability n/|F|)',
+                 'Ord of the field is a linear order whose equal elements are identical (hypothesis LinOrd of the lookup '
+                 'theorems)',
+                 'every identity polynomial has degree < n + (n-1)*(degree-1) (hypothesis hdeg of honest_verifies_algebraic: '
+                 'what cs.degree() computes; not derived from the gate expressions)'],
+ 'level_text': 'Kernel-checked theorems (42 obligations): prover and verifier transcript schedules agree for all '
+               "shapes/configurations (the place where the pinned tree rejected honest proofs); the prover's order of combining "
+               "identities with y equals the verifier's for all shapes; the expression-graph compiler is correct; quotient "
+               'split/blind/recombine; the permutation, lookup and trash arguments the honest prover constructs satisfy every '
+               'verifier identity on every row (for all layouts, all n, all blinding values, every HashMap order, outside an '
+               'explicitly stated exceptional set of challenges); and the assembly honest_verifies_algebraic over any field with '
+               'a primitive n-th root of unity: identities vanishing on every row => quotient exists, its blinded pieces '
+               "recombine to h(x), and the verifier's final evaluation check passes for every y and every x off the domain, with "
+               "l_i_range / l_0 / l_last / l_blind / the verifier's instance evaluations proved equal to the evaluations of the "
+               'interpolating polynomials, and selector-gated custom gates proved to vanish on the blinding rows. Models '
+               'validated against recorded transcripts, compiled graphs, the identity log with its fold, l_i_range, the hooked '
+               'instance evaluations and the argument vectors logged inside the real prover; honest-proof acceptance, rule '
+               'satisfaction and gate satisfaction on all rows (blinding rows included) observed on every generated case',
+ 'level_note': 'Trusted: Lean kernel, harness, driver, hooks. Abstract: group/pairing/hash. Still not mechanised: (1) the lift '
+               'from rows to polynomials for the PERMUTATION identities (perm_product_complete is row-level; its polynomial form '
+               'is the hypothesis hvanish of honest_verifies_algebraic - the lookup, trash and selector-gate lifts are proved) '
+               'and for arbitrary gate expressions (Expr.eval over F[X] vs rows); (2) the degree bound hdeg from the gate '
+               'expressions; (3) the probability bound for the exceptional challenge set; (4) lEvals mirrors '
+               "evaluate_identities' first lines but those are only observed through l_i_range and the identity values (no "
+               "direct hook on l_0/l_last/l_blind); the chopped-commitment scalars of as_terms and the prover's "
+               'Constructed::evaluate are modelled (choppedScalars, proverHReduce) and proved equal, but observed only through '
+               'proof acceptance. The argument models take sigma labels and cell values as inputs: that keygen produces sigma '
+               'labels which are a permutation of the identity labels is checked on every real case (multiset hypothesis), not '
+               'proved (C17/C02). Gates without a factor that vanishes on the unusable rows are outside the property: the mock '
+               'checker refuses them (ConstraintPoisoned) and the honest proof is rejected (shown on the real prover; Lean: '
+               'unselected_gate_not_divisible)',
+ 'timeout': {'quick': 1200, 'thorough': 7200, 'search': 1800}}
